@@ -144,6 +144,7 @@ func init() {
 	})
 	add("MinInt64", func(fr *frame, a []value) value { return min(a[0], a[1]) })
 	add("MaxInt64", func(fr *frame, a []value) value { return max(a[0], a[1]) })
+	add("MaxInt32", func(fr *frame, a []value) value { return max(a[0], a[1]) })
 	add("SetNow", func(fr *frame, a []value) value {
 		fr.i.clock = a[0]
 		return nil
